@@ -187,7 +187,7 @@ fn run_seq(tpl: &Path, db: &Path, seq: &[usize], out: &mut Out) {
 
 pub fn run(args: &[String]) -> ! {
     let mut ctx = Ctx::new("C07", Level::Exploration, args);
-    let dir = ctx.scratch_dir();
+    let dir = ctx.scratch_dir_fast();
     let tpl = dir.join("template.db");
     {
         let rt = new_rt();
